@@ -239,12 +239,58 @@ def kinds_case(case):
     return out
 
 
+def scenario(case):
+    """scripted, adaptive histories in which an old timer outlives its connection: after `head` the peer is unreachable
+    (every attempt refused / timing out) for `span` seconds; the statistic is checked after every step"""
+    cfg = case['cfg']
+    d = Driver({k: v for k, v in cfg.items() if k != 'rib'}, model=False)
+    mon = Mon()
+    d.apply(['boot'])
+    for ev in case['head']:
+        if list(ev) not in enabled(d):
+            return []
+        res, _ = apply(d, mon, list(ev))
+        if res:
+            return res
+    end = d.sim.now + case['span']
+    guard = 0
+    while d.sim.now < end and guard < 400:
+        guard += 1
+        en = enabled(d)
+        ev = [case['fail']] if [case['fail']] in en else (['tick'] if ['tick'] in en else None)
+        if ev is None:
+            break
+        res, _ = apply(d, mon, ev)
+        if res:
+            return res
+    return []
+
+
+SCENARIOS = [{'cfg': c, 'head': h, 'fail': f, 'span': 400}
+             for c in ({'hold': 180, 'idle_hold': 30, 'connect_retry': 60}, {'hold': 9, 'idle_hold': 5, 'connect_retry': 60})
+             for f in ('refused', 'timeout')
+             for h in ([['ok'], ['close']],                                             # peer drops TCP in OpenSent
+                       [['ok'], ['open', 'valid', 90], ['close']],                     # ... in OpenConfirm
+                       [['ok'], ['open', 'valid', 90], ['ka'], ['close']],             # ... in Established
+                       [['ok'], ['open', 'valid', 90], ['ka'], ['bad_marker']],
+                       [['ok'], ['open', 'h0', 0], ['ka'], ['notif', 'other']],
+                       [['refused'], ['tick'], ['ok'], ['close']])]
+
+
 def shards(tier):
-    return [{'name': 'update-kinds', 'kind': 'kinds'}] + [{'name': 'walks-%d' % i, 'kind': 'hyp', 'examples': 500 if tier == 'quick' else 8000, 'hypothesis': True,
+    return [{'name': 'update-kinds', 'kind': 'kinds'}, {'name': 'scenarios', 'kind': 'scenarios'}] + [{'name': 'walks-%d' % i, 'kind': 'hyp', 'examples': 500 if tier == 'quick' else 8000, 'hypothesis': True,
              'steps': 40 if tier == 'quick' else 80} for i in range(8 if tier == 'quick' else 16)]
 
 
 def run_shard(spec, seed, col, tier):
+    if spec['kind'] == 'scenarios':
+        for i, case in enumerate(SCENARIOS):
+            res = scenario(case)
+            c = dict(case, k='scenario')
+            col.case(c, True, labels=['scenario'])
+            for sig, detail in res:
+                col.fail(sig, c, detail)
+        return
     if spec['kind'] == 'kinds':
         for k in range(len(BODIES)):
             for before, rib in ((0, False), (2, False), (0, True), (2, True)):
@@ -271,4 +317,6 @@ def run_shard(spec, seed, col, tier):
 def replay(case):
     if case.get('k') == 'kinds':
         return kinds_case(case)
+    if case.get('k') == 'scenario':
+        return scenario(case)
     return run(case['cfg'], events=case['events'])[1]
